@@ -218,6 +218,11 @@ pub struct Workload {
     /// accepted fills are concerned.
     #[serde(default, skip_serializing_if = "Vec::is_empty")]
     pub probe_reads: Vec<usize>,
+    /// the source has a history: the caller reads this many blocks from it (into a scratch buffer) before
+    /// handing it to the encoder; what the encoder consumes starts after them, while the source's
+    /// `len_hint` (if any) keeps stating its whole length, as `MemSource` does.
+    #[serde(default, skip_serializing_if = "is_zero")]
+    pub pre_reads: usize,
     /// the input is `total_samples()` samples of silence generated block by block by the source, never
     /// materialised (streams of 2^32 samples and more); `sig_kinds` is ignored.
     #[serde(default, skip_serializing_if = "std::ops::Not::not")]
@@ -452,6 +457,7 @@ pub fn gen(purpose: Purpose, tier: Tier, seed: u64, index: u64) -> Workload {
         faults: vec![],
         hashq_cap: *r.pick(&[16usize, 16, 1, 2, 4]),
         probe_reads: vec![],
+        pre_reads: 0,
         synthetic_silence: false,
         pre: None,
     };
@@ -550,6 +556,7 @@ pub fn gen(purpose: Purpose, tier: Tier, seed: u64, index: u64) -> Workload {
         w.hashq_cap = 16;
         w.short_reads = false;
         w.probe_reads.clear();
+        w.pre_reads = 0;
         w.workers = Some(1 + r.below(3));
         w.env_workers = None;
     }
@@ -580,6 +587,10 @@ pub fn gen(purpose: Purpose, tier: Tier, seed: u64, index: u64) -> Workload {
             // cheap configurations: the STREAMINFO facts do not depend on them
             if r.chance(0.6) {
                 w.cfg.use_lpc = false;
+            }
+            // a source that was partly read by its owner before the encoder gets it
+            if r.chance(0.1) && w.nfull >= 2 {
+                w.pre_reads = 1 + r.below(w.nfull.min(3));
             }
             // a source that probes with an oversize chunk at some reads and falls back when refused
             if r.chance(0.08) {
@@ -761,6 +772,7 @@ pub fn fresh_small(r: &mut Rng) -> Workload {
         faults: vec![],
         hashq_cap: 16,
         probe_reads: vec![],
+        pre_reads: 0,
         synthetic_silence: false,
         pre: None,
     };
